@@ -161,10 +161,29 @@ def check(ctx, run):
         want = 1 if (same or not tc or eq) else 0
         run.ob("R1", "matchingAllocation(same=%d, typeChecking=%d, equalType=%d)" % (same, tc, eq), ma.site, got == want, witness={"folded": got, "oracle": want})
     it = prog.fn("TestMemoryAllocator::isOfEqualType")
-    rets = [render(it, it.node(n.get("value"))) for n in it.walk() if n["k"] == "ReturnStmt"]
-    pn_ = it.params[0]["name"]
-    ok = rets in (["(SimpleString::StrCmp(this->name(), %s->name()) == 0)" % pn_], ["(SimpleString::StrCmp(name(), %s->name()) == 0)" % pn_], ["(SimpleString::StrCmp(%s->name(), name()) == 0)" % pn_])
-    run.ob("R1", "allocator families are compared by name", it.site, ok, witness=rets)
+    run.analysed(it)
+    bad, wit = None, []
+    NAMES = {100: "Standard New Allocator", 200: "Standard New [] Allocator", 300: "Standard New Allocator", 400: ""}
+    for me, other in itertools.product(sorted(NAMES), repeat=2):
+        def strcmp(*a_):
+            x, y = a_[-2], a_[-1]
+            if not (isinstance(x, tuple) and isinstance(y, tuple) and x[0] == y[0] == "str"):
+                return None
+            return (x[1] > y[1]) - (x[1] < y[1])
+        ev = Evaluator(prog, it, env={"this": me, it.params[0]["name"]: other},
+                       calls=string_hooks({"TestMemoryAllocator::name": lambda o=None, *a_, me=me: ("str", NAMES.get(o if o is not None else me, "?")), "SimpleString::StrCmp": strcmp}))
+        ev.pass_object = True
+        try:
+            ev.run_blocks(it.entry, max_steps=200)
+            r = getattr(ev, "ret", None)
+            r = int(bool(r)) if isinstance(r, (int, bool)) else r
+        except Unknown as u:
+            raise AnalysisBroken("C06.R1: isOfEqualType cannot be folded: %s" % u)
+        want = 1 if NAMES[me] == NAMES[other] else 0
+        wit.append({"names": (NAMES[me], NAMES[other]), "equal type": r})
+        if r != want and bad is None:
+            bad = "allocators named %r and %r (%s objects): equal type = %s" % (NAMES[me], NAMES[other], "the same" if me == other else "different", r)
+    run.ob("R1", "allocator families are compared by name: isOfEqualType folded on 16 pairs of allocator objects (two objects with one name, different names, the empty name)", it.site, bad is None, witness=bad or wit[:4], what=bad or "")
     # the two switches, judged by what matchingAllocation answers afterwards (different families, same allocator not given)
     for steps_, want in (([], 0), ([("disableAllocationTypeChecking", [])], 1), ([("disableAllocationTypeChecking", []), ("enableAllocationTypeChecking", [])], 0), ([("enableAllocationTypeChecking", [])], 0)):
         env_ = detector_state(prog, steps_)
@@ -367,13 +386,29 @@ def check(ctx, run):
             run.ob("R5", "%s overrides actualAllocator()" % cls, "class " + cls, False, what="a wrapper allocator that does not override actualAllocator() is compared by its own name: matching releases are reported as mismatches")
             continue
         run.analysed(f)
-        rets = [render(f, f.node(n.get("value"))) for n in f.walk() if n["k"] == "ReturnStmt"]
-        ok = len(rets) == 1 and rets[0] in ["%s->actualAllocator()" % h for h in holders]
-        run.ob("R5", "%s::actualAllocator() delegates to the wrapped allocator's actualAllocator()" % cls, f.site, ok, witness=rets,
+        # folded: whatever the wrapped allocator answers (it may be a wrapper itself) is the answer
+        got = []
+        for h in holders:
+            asked = []
+            ev = Evaluator(prog, f, env=dict({"this": 600}, **{x: (700 if x == h else 0) for x in holders}), calls={"TestMemoryAllocator::actualAllocator": lambda o=None, *a_, asked=asked: (asked.append(o), 900)[1]})
+            ev.pass_object = True
+            try:
+                ev.run_blocks(f.entry, max_steps=200)
+                got.append((h, asked, getattr(ev, "ret", None)))
+            except Unknown as u:
+                got.append((h, asked, "unknown: %s" % u))
+        ok = any(asked == [700] and r == 900 for h, asked, r in got)
+        run.ob("R5", "%s::actualAllocator() folded: answers what the wrapped allocator's actualAllocator() answers" % cls, f.site, ok, witness=[str(g_) for g_ in got],
                what="" if ok else "a chain of wrappers is not resolved to the real allocator")
     if n5 < 4:
         run.broke("only %d wrapper allocator classes found (4 confirmed by hand)" % n5)
     wrapper_install_rule(prog, run, "R6")
     base = prog.fn("TestMemoryAllocator::actualAllocator")
-    rets = [render(base, base.node(n.get("value"))) for n in base.walk() if n["k"] == "ReturnStmt"]
-    run.ob("R5", "a plain allocator is its own actual allocator", base.site, rets == ["this"], witness=rets)
+    run.analysed(base)
+    ev = Evaluator(prog, base, env={"this": 600})
+    try:
+        ev.run_blocks(base.entry, max_steps=100)
+        r = getattr(ev, "ret", None)
+    except Unknown as u:
+        r = "unknown: %s" % u
+    run.ob("R5", "a plain allocator is its own actual allocator (folded)", base.site, r == 600, witness=r)
